@@ -1035,13 +1035,15 @@ func (c *Client) trySwitchingProtocol() error {
 	}
 
 	// some Hikvision cameras require a describe before a setup
-	_, _, err := c.doDescribe(c.lastDescribeURL)
-	if err != nil {
-		return err
+	if c.lastDescribeURL != nil {
+		_, _, err := c.doDescribe(c.lastDescribeURL)
+		if err != nil {
+			return err
+		}
 	}
 
 	for i, cm := range prevMedias {
-		_, err = c.doSetup(prevBaseURL, cm.media, 0, 0)
+		_, err := c.doSetup(prevBaseURL, cm.media, 0, 0)
 		if err != nil {
 			return err
 		}
@@ -1052,7 +1054,7 @@ func (c *Client) trySwitchingProtocol() error {
 		}
 	}
 
-	_, err = c.doPlay(c.lastRange)
+	_, err := c.doPlay(c.lastRange)
 	if err != nil {
 		return err
 	}
@@ -1922,7 +1924,8 @@ func (c *Client) doSetup(
 	case ProtocolUDP, ProtocolUDPMulticast:
 		if thRes.Protocol == headers.TransportProtocolTCP {
 			// switch transport automatically
-			if c.setuppedTransport == nil && c.Protocol == nil {
+			// (not when recording: the session would have to be announced again)
+			if c.setuppedTransport == nil && c.Protocol == nil && c.state != clientStatePreRecord {
 				c.OnTransportSwitch(liberrors.ErrClientSwitchToTCPDueToServer{})
 
 				c.baseURL = baseURL
@@ -1935,9 +1938,11 @@ func (c *Client) doSetup(
 				}
 
 				// some Hikvision cameras require a describe before a setup
-				_, _, err = c.doDescribe(c.lastDescribeURL)
-				if err != nil {
-					return nil, err
+				if c.lastDescribeURL != nil {
+					_, _, err = c.doDescribe(c.lastDescribeURL)
+					if err != nil {
+						return nil, err
+					}
 				}
 
 				return c.doSetup(baseURL, medi, 0, 0)
